@@ -4,6 +4,7 @@
    input (httparse is a left-to-right parser; the executable model's parser is proved stable). *)
 From Coq Require Import List NArith Bool Arith.
 From TT Require Import Lib.BytesL Model.Http1 Generated.Http1Facts Proofs.Http1Proofs.
+From TT Require Import Model.Http1Wire Spec.Rfc9112 Proofs.Http1WireProofs.
 Import ListNotations.
 Local Open Scope nat_scope.
 
@@ -76,9 +77,29 @@ Theorem model_parser_is_stable :
 Proof. repeat split; [exact parse_c_complete_stable|exact parse_c_error_stable|exact parse_c_complete_idx]. Qed.
 Print Assumptions model_parser_is_stable.
 
+(* "answers with a well-formed HTTP/1.1 response": for every status, reason phrase without a line break and header list as
+   the http crate holds it (no colon in a name, no line break in a name or value), whatever follows on the connection, the
+   bytes encode_response writes are read back under the RFC 9112 grammar (Spec/Rfc9112.v) as exactly that version, status,
+   reason and header list (values up to leading blanks), and the reading ends exactly where the payload starts *)
+Theorem response_head_is_well_formed :
+  forall minor a b c reason hs rest,
+    (minor < 10)%N -> is_digit a = true -> is_digit b = true -> is_digit c = true ->
+    no_cr reason = true -> forallb hdr_ok hs = true ->
+    read_response (S (length hs)) (enc_response minor [a; b; c] reason hs ++ rest) =
+    Some ({| rs_minor := minor; rs_status := [a; b; c]; rs_reason := reason;
+             rs_headers := map (fun h => (fst h, trim_ows (snd h))) hs |}, rest).
+Proof. exact response_round_trip_proof. Qed.
+Print Assumptions response_head_is_well_formed.
+
+Example ex_response_head :
+  read_response 3 (enc_response 1 [50; 48; 48] [79; 75] [([97], [49]); ([98; 99], [120; 32; 121])] ++ [1; 2; 3])%N =
+  Some ({| rs_minor := 1; rs_status := [50; 48; 48]; rs_reason := [79; 75];
+           rs_headers := [([97], [49]); ([98; 99], [120; 32; 121])] |}, [1; 2; 3])%N.
+Proof. vm_compute. reflexivity. Qed.
+
 Theorem code_facts :
   HTTP1_PARTIAL_HEAD_READS_MORE = true /\ HTTP1_READS_WHEN_EMPTY = true /\ HTTP1_TAIL_IS_FIRST_CHUNK = true
-  /\ HTTP1_LIMITS_AS_MODELLED = true /\ N.to_nat HTTP1_MAX_RAW_HEADERS_SIZE = CAP
+  /\ HTTP1_LIMITS_AS_MODELLED = true /\ HTTP1_HEAD_WRITERS_AS_MODELLED = true /\ N.to_nat HTTP1_MAX_RAW_HEADERS_SIZE = CAP
   /\ N.to_nat HTTP1_MAX_HEADERS_NUM = MAX_HEADERS.
 Proof. repeat split; exact eq_refl. Qed.
 Print Assumptions code_facts.
